@@ -7,8 +7,9 @@ MODULES = ["Mimium.Props.C11"]
 
 def new_stats():
     return {"evaluations": 0, "nontrivial": set(), "disagreements": 0, "impl_property_failures": 0, "samples": [],
-            "handle_cases": 0, "handle_panic_cases": 0, "handle_order_exact": 0, "f17_hits": 0, "f17_not_reproduced": 0,
-            "f17_samples": [], "prog_cases": 0, "prog_upv_cases": 0, "prog_upv_f17_hits": 0, "prog_boundary_cases": 0,
+            "handle_cases": 0, "handle_panic_cases": 0, "handle_order_exact": 0, "old_discipline_deviates": 0, "old_discipline_not_evaluated": 0,
+            "old_discipline_samples": [], "prog_cases": 0, "prog_upv_cases": 0, "prog_upv_old_deviates": 0,
+            "prog_closure_style": 0, "prog_deep_capture": 0, "prog_closure_style_multi": 0, "prog_boundary_cases": 0,
             "prog_boundary_same_kind": 0, "prog_boundary_vm_late_by_one": 0, "prog_compile_errors": 0,
             "execs_hist": collections.Counter(), "maxpertick_hist": collections.Counter(), "ops_hist": collections.Counter(),
             "boundary_samples": []}
@@ -68,6 +69,9 @@ def compare_stream(ctx, name, mmh_args, stats, stdin_data=None):
                 problems.append({"kind": "driver-bad-line", "line": a, "driver": b})
                 continue
             mvm, mwasm, info = g[1], g[2], g[3]
+            # g[4]: what the OLD memory discipline of the WASM back end (closure records freed with the body that made
+            # them, finding F17, repaired) would have produced — Model/SchedMem.lean. No longer a prediction of the
+            # implementation: it only tells how many generated programs are sensitive to the lifetime of the records.
             mmem = g[4] if len(g) > 4 else mwasm
             # the two queue models with the literal BinaryHeap port inside (Vm.runH / W.runH stdHeap: what the
             # `..._on_binary_heap` theorems are about) must predict what the oracle-heap models predict
@@ -80,6 +84,10 @@ def compare_stream(ctx, name, mmh_args, stats, stdin_data=None):
             # tables with `selK(t, v)` requests: closures with one upvalue, records of two cells on WASM
             has_upv = ":u" in table
             stats["prog_upv_cases"] += has_upv
+            stats["prog_deep_capture"] += f[2].endswith("d")
+            if f[2].endswith("c"):
+                stats["prog_closure_style"] += 1
+                stats["prog_closure_style_multi"] += int(f[2][:-1]) > 1
             inf = dict(kv.split("=") for kv in info.split(";"))
             stats["execs_hist"][bucket(int(inf["execs"]))] += 1
             stats["maxpertick_hist"][bucket(int(inf["maxpertick"]))] += 1
@@ -89,12 +97,11 @@ def compare_stream(ctx, name, mmh_args, stats, stdin_data=None):
             size = len(table)
             if int(inf["execs"]) > 0 or boundary:
                 stats["nontrivial"].add(hash(table))
-            # model == implementation: VM against the VM model; WASM against the WASM model with closure memory
-            # (or against the plain queue model, should the closure-record reuse F17 stop reproducing)
+            # model == implementation: VM against the VM model; WASM against the WASM queue model (= W.runH stdHeap, checked above)
             vm_ok = (vm == mvm)
-            wasm_ok = (wasm == mmem or wasm == mwasm)
+            wasm_ok = (wasm == mwasm)
             rec = {"kind": "case", "stream": name, "table": table, "vm": vm, "wasm": wasm, "model_vm": mvm,
-                   "model_wasm_queue": mwasm, "model_wasm_with_closure_memory": mmem, "size": size}
+                   "model_wasm_queue": mwasm, "old_freed_record_discipline_would_give": mmem, "size": size}
             if boundary:
                 # premise of C11 not met on this program (`trunc when <= now` is reached): reported separately, never a C11
                 # violation by itself; the models still have to predict each runtime exactly
@@ -116,22 +123,19 @@ def compare_stream(ctx, name, mmh_args, stats, stdin_data=None):
             if mvm != mwasm:
                 problems.append(dict(rec, level="model-sanity"))
                 continue
+            if mmem == "-":
+                stats["old_discipline_not_evaluated"] += 1
+            elif mmem != ideal:
+                stats["old_discipline_deviates"] += 1
+                stats["prog_upv_old_deviates"] += has_upv
+                if len(stats["old_discipline_samples"]) < 1:
+                    stats["old_discipline_samples"].append({"table": table})
             if vm == ideal and wasm == ideal:
-                if mmem != ideal:
-                    stats["f17_not_reproduced"] += 1
                 if len(stats["samples"]) < 5 and int(inf["execs"]) > 20 and stats["evaluations"] % 7 == 3:
                     stats["samples"].append({"level": "program", "table": table, "info": info,
                                              "last_output_bits": vm.split(",")[-1]})
                 continue
             stats["impl_property_failures"] += 1
-            if vm == ideal and wasm == mmem:
-                # exactly the deviation the closure-memory model predicts: class of finding F17
-                stats["f17_hits"] += 1
-                stats["prog_upv_f17_hits"] += has_upv
-                if len(stats["f17_samples"]) < 1:
-                    stats["f17_samples"].append({"table": table})
-                problems.append(dict(rec, level="prog-f17", vm_eq_wasm=False))
-                continue
             stats["disagreements"] += (not (vm_ok and wasm_ok))
             problems.append(dict(rec, level="prog", vm_eq_wasm=(vm == wasm)))
     return problems
@@ -148,8 +152,6 @@ def burst_programs(seed, quick):
     for n in ns:
         for origin in ("dsp", "global", "task"):
             for spread in (1, 3):
-                if origin == "dsp" and spread == 3:
-                    continue      # a task scheduled from dsp for later than the next sample loses its closure record on WASM: finding F17
                 t0 = 2 + (k % 3)
                 due = lambda i, base: base + 1 + (i % spread)          # i = 1..n (the value of the recursion counter)
                 head = ("let c = 0.0\nfn tick(){\n  c = c + 1.0\n}\n"
@@ -248,7 +250,7 @@ def main(ctx, args):
             stats["nontrivial"] |= st["nontrivial"]
             stats["samples"] += st["samples"][:1]
             stats["boundary_samples"] += st["boundary_samples"][:1]
-            stats["f17_samples"] += st["f17_samples"][:1]
+            stats["old_discipline_samples"] += st["old_discipline_samples"][:1]
             problems += pr
     burst_bad = []
     if not args.replay or "burst" in json.load(open(args.replay)).get("id", ""):
@@ -267,7 +269,6 @@ def main(ctx, args):
                       f"executed another number of tasks than were scheduled ({len(burst_bad)} failing burst programs); program:\n{b['src']}",
                       dict(b, replay_cmd="./check C11 --replay <this file>", failing_cases=len(burst_bad)))
     # ---- decide
-    f17 = [k for k in known if k.get("class") == "model-predicted-wasm-closure-record-reuse"]
     known_keys = {("ops", k["ops"]): k for k in known if "ops" in k}
     known_keys.update({("table", k["table"]): k for k in known if "table" in k and "class" not in k})
     known_hits = collections.Counter()
@@ -282,12 +283,7 @@ def main(ctx, args):
             if pr.get("level") == "prog":
                 stats["disagreements"] -= 1   # excused input: no model of this defect exists, counted under known findings
             continue
-        if pr["level"] == "prog-f17":
-            if f17:
-                known_hits[f17[0]["id"]] += 1
-            else:
-                fails.append(pr)
-        elif pr["level"] == "prog":
+        if pr["level"] == "prog":
             fails.append(pr)
         else:
             disagree.append(pr)
@@ -313,12 +309,10 @@ def main(ctx, args):
         n = known_hits.get(k["id"], 0)
         if n or args.replay is None:
             ctx.known_finding(f"{k['id']} {k['what']} (cases hit this run: {n})")
-    if stats["f17_not_reproduced"]:
-        ctx.notes.append(f"F17: the closure-memory model predicted a deviation on {stats['f17_not_reproduced']} programs on which WASM behaved ideally (finding fixed? update Model/SchedMem.lean and known_findings.jsonl)")
     ctx.coverage.update({
         "evaluations": stats["evaluations"],
         "distinct_nontrivial": len(stats["nontrivial"]),
-        "rule": "handle level: random op histories (schedule f64 time/closure id, tick) against the real WasmSchedulerHandle, judged by the Lean model (same panics, same multiset per drain, pop order non-decreasing in time); program level: random task tables (1-4 counter tasks; requests from global scope, task bodies, dsp; absolute/relative, fractional, equal, far-future times; guarded chains; 1 table in 3 also schedules closures capturing a float, `selK(t, v)`: records of two cells on WASM) compiled from mimium source and run on VM and WASM for N samples, per-sample outputs vs both models; non-trivial = at least one task was executed (or a request was rejected); distinct = distinct history / table text",
+        "rule": "handle level: random op histories (schedule f64 time/closure id, tick) against the real WasmSchedulerHandle, judged by the Lean model (same panics, same multiset per drain, pop order non-decreasing in time); program level: random task tables (1-4 counter tasks; requests from global scope, task bodies, dsp; absolute/relative, fractional, equal, far-future times; guarded chains; 1 table in 3 also schedules closures capturing a float, `selK(t, v)`: records of two cells on WASM; half of those through a `let`-bound closure or a tuple argument; 1 in 12 tables is 1-3 `letrec` counters made by one `mk`) compiled from mimium source and run on VM and WASM for N samples, per-sample outputs vs both models; non-trivial = at least one task was executed (or a request was rejected); distinct = distinct history / table text",
         "samples": stats["samples"][:6] or [{"note": "no sample in replay mode"}],
         "traces_validated_against_impl": stats["evaluations"],
         "model_impl_disagreements": stats["disagreements"],
@@ -331,9 +325,13 @@ def main(ctx, args):
         },
         "std_binaryheap_port_pop_order_exact": stats["handle_order_exact"],
         "closures_with_upvalue_records_of_two_cells": {"programs": stats["prog_upv_cases"],
-                                                        "of_which_wasm_deviates_as_the_record_layout_model_predicts": stats["prog_upv_f17_hits"]},
-        "known_finding_F17": {"programs_where_wasm_deviates_exactly_as_the_closure_memory_model_predicts": stats["f17_hits"],
-                              "sample": stats["f17_samples"][:1]},
+                                                        "of_which_sensitive_to_record_lifetime": stats["prog_upv_old_deviates"],
+                                                        "of_which_rendered_with_deeper_captures_let_bound_closure_or_tuple_argument": stats["prog_deep_capture"]},
+        "closure_style_programs": {"programs": stats["prog_closure_style"], "with_2_or_3_instances_of_one_maker": stats["prog_closure_style_multi"]},
+        "repaired_finding_F17": {"programs_sensitive_to_record_lifetime": stats["old_discipline_deviates"],
+                                 "programs_where_the_old_model_was_too_costly_to_evaluate": stats["old_discipline_not_evaluated"],
+                                 "meaning": "the memory model of the old discipline (records freed with the body that made them, Model/SchedMem.lean) deviates from ideal on these programs; WASM must be ideal on them now",
+                                 "sample": stats["old_discipline_samples"][:1]},
         "boundary_cases_reported_separately": {
             "programs_with_a_request_trunc_when_le_now": stats["prog_boundary_cases"],
             "both_runtimes_reject_by_panic": stats["prog_boundary_same_kind"],
